@@ -63,13 +63,37 @@ impl Prop for C26 {
                 }
             }
         }
+        // interval changed by ModifySubscription: ticks just below / at / above the NEW and the OLD interval
+        for (old_ms, new_ms) in [(1000i64, 100i64), (100, 1000), (250, 100), (100, 250), (1000, 1000)] {
+            let (ou, nu) = (old_ms * 1000, new_ms * 1000);
+            out.push(format!("reset 30000 {} -1", old_ms));
+            out.push(format!("setinterval {}", new_ms));
+            let mut last = 0i64; // the model's last_time: moves only when a tick counts as elapsed under the NEW interval
+            for d in [nu - 1, nu, nu + 1, ou - 1, ou, ou + 1, nu - 1, nu, ou, 2 * ou + nu] {
+                let c = last + d;
+                out.push(format!("cycle {}", c));
+                if d >= nu {
+                    last = c;
+                }
+            }
+            // change it back and again look at both boundaries
+            out.push(format!("setinterval {}", old_ms));
+            for d in [nu - 1, nu, nu + 1, ou - 1, ou, ou + 1] {
+                let c = last + d;
+                out.push(format!("cycle {}", c));
+                if d >= ou {
+                    last = c;
+                }
+            }
+        }
         // (2) random part
         for _ in 0..n {
             let timeout: i64 = *rng.pick(&[30_000i64, 30_000, 5_000, 100, 1, 0, -1]);
             let interval_ms: i64 = *rng.pick(&[100i64, 250, 1000]);
             let samp_ms: i64 = *rng.pick(&[-1i64, 100, 250, 1000]);
             out.push(format!("reset {} {} {}", timeout, interval_ms, samp_ms));
-            let iu = interval_ms * 1000;
+            let mut iu = interval_ms * 1000;
+            let mut old_iu = iu;
             let tu = timeout * 1000;
             let mut c: i64 = 0; // the server clock, µs from the origin
             let mut rid = 1u64;
@@ -81,7 +105,7 @@ impl Prop for C26 {
                     0 => {
                         let r = rng.range(0, 3 * iu);
                         let su = if samp_ms > 0 { samp_ms * 1000 } else { iu };
-                        *rng.pick(&[0, 1, 999, 1000, iu - 1, iu, iu + 1, 2 * iu, r, su - 1, su, su + 1])
+                        *rng.pick(&[0, 1, 999, 1000, iu - 1, iu, iu + 1, 2 * iu, r, su - 1, su, su + 1, old_iu - 1, old_iu, old_iu + 1])
                     }
                     1 => -*rng.pick(&[1, 1000, iu, 60_000_000, 86_400_000_000i64]),
                     2 => 86_400_000_000,
@@ -91,6 +115,12 @@ impl Prop for C26 {
                     },
                 };
                 c += step;
+                if rng.chance(1, 12) {
+                    let new_ms = *rng.pick(&[100i64, 250, 1000, 500]);
+                    out.push(format!("setinterval {}", new_ms));
+                    old_iu = iu;
+                    iu = new_ms * 1000;
+                }
                 match rng.weighted(&[10, 5, 2, 3]) {
                     0 => out.push(format!("cycle {}", c)),
                     1 => {
@@ -302,6 +332,33 @@ impl Runner for R {
                 let resps = w.take_responses();
                 let s = self.show(&resps);
                 (format!("ok res={} {}", if res.is_ok() { "ok" } else { "toomany" }, &s[3..]), self.oracle(&now, &resps, "pub"))
+            }
+            ["setinterval", ms] => {
+                // the REAL ModifySubscription service with a new publishing interval and the current counts
+                // (the only caller of Subscription::set_publishing_interval); the subscription is moved
+                // into a session for the call and back
+                use opcua::verif_hooks::subs as hooks;
+                let w = self.w.as_mut().unwrap();
+                let Some(sub) = w.subs.remove(1) else {
+                    return ("err nosub".to_string(), Verdict::Ok);
+                };
+                let (k, l) = (sub.max_keep_alive_count(), sub.max_lifetime_count());
+                let session = std::sync::Arc::new(opcua::sync::RwLock::new(opcua::server::session::Session::new(fx.server_state.clone())));
+                hooks::session_insert_subscription(&mut session.write(), 1, sub);
+                let req = ModifySubscriptionRequest {
+                    request_header: RequestHeader::new(&NodeId::null(), &DateTime::now(), 1),
+                    subscription_id: 1,
+                    requested_publishing_interval: ms.parse::<u64>().unwrap() as f64,
+                    requested_lifetime_count: l,
+                    requested_max_keep_alive_count: k,
+                    max_notifications_per_publish: 0,
+                    priority: 0,
+                };
+                let good = matches!(hooks::modify_subscription(fx.server_state.clone(), session.clone(), &req), SupportedMessage::ModifySubscriptionResponse(_));
+                let sub = hooks::session_remove_subscription(&mut session.write(), 1).expect("subscription");
+                w.subs.insert(1, sub);
+                let v = if good { Verdict::Ok } else { Verdict::fail("service_ok", "setinterval", "ModifySubscription refused a valid request") };
+                (self.show(&[]), v)
             }
             ["itick", n, e] => {
                 let off: i64 = n.parse().unwrap();
